@@ -29,7 +29,7 @@ theorem alignLineLeft_regenerated (h : Gen.Code.alignLineLeft_extracted = true) 
     Gen.Code.alignLineLeft cx text width = pure (alignLeft cx text width) := by
   first
     | exact absurd h (by decide)
-    | (unfold Gen.Code.alignLineLeft alignLeft
+    | (unfold Gen.Code.alignLineLeft alignLeft alignLeftCore
        rw [countLeadingWhitespace_regenerated cx (by decide)]
        go_norm
        repeat' split
@@ -39,7 +39,7 @@ theorem alignLineRight_regenerated (h : Gen.Code.alignLineRight_extracted = true
     Gen.Code.alignLineRight cx text width = pure (alignRight cx text width) := by
   first
     | exact absurd h (by decide)
-    | (unfold Gen.Code.alignLineRight alignRight
+    | (unfold Gen.Code.alignLineRight alignRight alignRightCore
        rw [countTrailingWhitespace_regenerated cx (by decide)]
        go_norm
        go_close)
@@ -48,7 +48,7 @@ theorem alignLineCenter_regenerated (h : Gen.Code.alignLineCenter_extracted = tr
     Gen.Code.alignLineCenter cx text width = pure (alignCenter cx text width) := by
   first
     | exact absurd h (by decide)
-    | (unfold Gen.Code.alignLineCenter alignCenter
+    | (unfold Gen.Code.alignLineCenter alignCenter alignCenterCore
        rw [countLeadingWhitespace_regenerated cx (by decide), countTrailingWhitespace_regenerated cx (by decide)]
        go_norm
        go_close)
